@@ -55,6 +55,34 @@ let tag_of = function
 
 let b2s b = if b then "1" else "0"
 
+(* events: `{ } [ ] s:<cps> n:<cps> t f z` separated by spaces *)
+let ev_of_string w =
+  match w with
+  | "{" -> EBeginObj | "}" -> EEndObj | "[" -> EBeginArr | "]" -> EEndArr
+  | "t" -> EBool true | "f" -> EBool false | "z" -> ENull
+  | _ ->
+      let body = String.sub w 2 (String.length w - 2) in
+      if w.[0] = 's' then EStr (cps_of_string body) else ENum (cps_of_string body)
+
+let dec_z (z : z) : string = String.concat "" (List.map (fun c -> String.make 1 (Char.chr (int_of_n c))) (dec_of_Z z))
+
+let rec show_dv (v : dv) : string =
+  match v with
+  | DNull -> "null" | DBool b -> if b then "true" else "false"
+  | DNum (m, e) -> "#" ^ dec_z m ^ (if e = Z0 then "" else "e" ^ dec_z e)
+  | DFloat _ -> "~float"
+  | DStr s -> "s" ^ show_cps s
+  | DArr l -> "[" ^ String.concat "," (List.map show_dv l) ^ "]"
+  | DRec fs ->
+      let ks = List.map (fun (k, _) -> List.map int_of_n k) fs in
+      let sorted = List.sort_uniq compare ks in
+      if List.length sorted <> List.length ks then "{dup}"
+      else
+        let fs' = List.sort (fun (a, _) (b, _) -> compare (List.map int_of_n a) (List.map int_of_n b)) fs in
+        "{" ^ String.concat "," (List.map (fun (k, v) -> show_cps k ^ ":" ^ show_dv v) fs') ^ "}"
+
+let show_odv = function Some v -> show_dv v | None -> "ERR"
+
 let handle (line : string) : string =
   match String.split_on_char '\t' line with
   | ["esc"; s] ->
@@ -90,6 +118,10 @@ let handle (line : string) : string =
       let v = cps_of_string v in
       Printf.sprintf "%s ns=%s ov=%s" (show_sres (resolve (style_of st) (tag_of tg) v))
         (b2s (nonstring_spelling v)) (b2s (float_overflow_spelling v))
+  | ["evs"; evs] ->
+      let ws = List.filter (fun w -> w <> "") (String.split_on_char ' ' evs) in
+      let es = List.map ev_of_string ws in
+      Printf.sprintf "loader=%s serde=%s" (show_odv (loader_run es)) (show_odv (serde_run es))
   | _ -> "!badcase"
 
 let () =
